@@ -2,6 +2,8 @@
 import glob
 import json
 import os
+import shutil
+import tempfile
 
 from vlib import core, runner
 from .base import Check
@@ -179,6 +181,32 @@ class C05(Check):
         "every downtime name is used at most once per case",
     ]
 
+    # Every invocation works in a directory of its own: two checks of this property running at the same time (another
+    # seed, another tier, a replay) must never write the same gen.out / shrink.ops through independent file offsets.
+    _run_dir = None
+
+    def work(self, *parts):
+        if self._run_dir is None:
+            base = os.path.join(core.WORK, self.prop.lower())
+            os.makedirs(base, exist_ok=True)
+            import time
+            for old in glob.glob(os.path.join(base, "run-*")):      # left behind by an interrupted run
+                try:
+                    if time.time() - os.path.getmtime(old) > 86400:
+                        shutil.rmtree(old, ignore_errors=True)
+                except OSError:
+                    pass
+            type(self)._run_dir = tempfile.mkdtemp(prefix="run-%d-" % os.getpid(), dir=base)
+        p = os.path.join(self._run_dir, *parts)
+        os.makedirs(os.path.dirname(p), exist_ok=True)
+        return p
+
+    def _cleanup(self, keep):
+        d = self._run_dir
+        type(self)._run_dir = None
+        if d and not keep:
+            shutil.rmtree(d, ignore_errors=True)
+
     def _run(self, harness_cmd, driver, save):
         hrc, herr, drc, lines = runner.pipeline(harness_cmd, [driver], save)
         if hrc != 0:
@@ -252,6 +280,13 @@ class C05(Check):
                 res.corr_failures.append(runner.Finding("corr", "step-observation", shown, {"driver": drv or l, "origin": origin}))
 
     def correspondence(self, tier, seed, harness, driver):
+        try:
+            return self._correspondence(tier, seed, harness, driver)
+        finally:
+            # minimised witnesses travel inside the findings; VERIF_C05_KEEP=1 keeps the raw outputs for inspection
+            self._cleanup(bool(os.environ.get("VERIF_C05_KEEP")))
+
+    def _correspondence(self, tier, seed, harness, driver):
         res = runner.Result()
         total = {}
         # corpus first: hand-written seeds and the witnesses of the recorded findings
@@ -312,7 +347,10 @@ class C05(Check):
     def replay(self, path, harness, driver):
         data = json.load(open(path))
         lines = [l for l in data.get("case", []) if l.startswith(OPS) or l.startswith("C ")]
-        out, shown = self._replay_lines(harness, driver, lines, "replay")
+        try:
+            out, shown = self._replay_lines(harness, driver, lines, "replay")
+        finally:
+            self._cleanup(False)
         print("\n".join(shown))
         print("\n".join(out))
         return not any(l.startswith(("SPECFAIL", "MISMATCH", "BADLINE")) for l in out)
